@@ -520,6 +520,36 @@ def w_cyclic(job):
     return sh.result()
 
 
+SEQ_BODIES = {'if': 'if x:\n    y%d = x\n', 'if-else': 'if x:\n    y%d = x\nelse:\n    y%d = 0\n', 'for': 'for k%d in x:\n    y%d = k%d\n',
+              'try': 'try:\n    y%d = x\nexcept E:\n    pass\n', 'try-finally': 'try:\n    y%d = x\nfinally:\n    z%d = 1\n', 'with': 'with x as y%d:\n    pass\n',
+              'while': 'while x:\n    y%d = x\n', 'def': 'def f%d(a):\n    return a\n', 'assign': 'y%d = [x for x in (1, 2)]\n'}
+
+
+def w_sequences(job):
+    """long SEQUENCES (not nesting) of statements in one body: statement count is not bounded by the recursion limit"""
+    seed, sizes = job
+    sh = Shard()
+    rnd = random.Random(seed)
+    for n in sizes:
+        kinds = sorted(SEQ_BODIES)
+        for variant in range(3):
+            pick = [rnd.choice(kinds)] * n if variant == 0 else [rnd.choice(kinds) for _ in range(n)]
+            body = ''.join(SEQ_BODIES[k].replace('%d', str(i)) for i, k in enumerate(pick))
+            if variant == 2:
+                body = 'def host(x):\n' + ''.join('    ' + l + '\n' for l in body.split('\n') if l) + '    print(x, y0)\n'
+                src = 'x = 1\n' + body + 'host(x)\n'
+            else:
+                src = 'x = 1\n' + body + 'print(x, y0)\n'
+            lines = core.plines(src)
+            last = len(lines) - (1 if variant == 2 else 0)
+            pl = [((last, lines[last - 1].index('x') + 1), 'after-long-sequence'), ((last, len(lines[last - 1]) - 1), 'after-long-sequence'),
+                  ((len(lines) // 2, len(lines[len(lines) // 2 - 1])), 'inside-long-sequence')]
+            sh.count('statement-sequences')
+            run_text(sh, suppview.project(), src, suppview.filename_for(False), pl, 'sequence-of-%d-statements' % n, False)
+    flush(sh)
+    return sh.result()
+
+
 def hier_requests(h):
     """completion / definition requests on every class of a C06 hierarchy, from a probe buffer and from inside the class' file"""
     from . import c06
@@ -744,6 +774,7 @@ def run(run):
     run.pmap(w_cyclic, [(i, core.derive_seed(run.seed, 'c08c', i), run.pick(40, 600)) for i in range(4)])
     run.pmap(w_programs, [(i, core.derive_seed(run.seed, 'c08p', i), run.pick(30, 600)) for i in range(12)])
     run.pmap(w_hier, [(i, core.derive_seed(run.seed, 'c08h', i), run.pick(40, 800)) for i in range(8)])
+    run.pmap(w_sequences, [(core.derive_seed(run.seed, 'c08q', i), sz) for i, sz in enumerate(run.pick([[60, 130], [250], [420]], [[60, 130, 90], [250, 300], [420, 700], [1000], [1500], [2500]]))])
     run.extra['timeouts_inconclusive'] = sum(v for k, v in run.counters.items() if k.endswith(':timeout'))
     if not run.quick:
         run_atheris(run, int(os.environ.get('VERIF_FUZZ_SECONDS', '300')))
